@@ -1603,7 +1603,7 @@ pub fn info_reject(doc: &str) -> Outcome {
 // C12 / C13: an attribute set through the DOM belongs to its element: it is specified, its prefix resolves in the scope of
 // the element, its declared type applies, and it cannot be attached to a second element
 
-pub const ATTR_OWNER_SCENARIOS: [&str; 6] = ["set_attribute_plain", "set_attribute_prefixed", "set_attribute_tokenized", "attribute_in_use_on_detached_element", "remove_attribute_removes_one", "removed_attribute_can_be_reused"];
+pub const ATTR_OWNER_SCENARIOS: [&str; 7] = ["set_attribute_plain", "set_attribute_prefixed", "set_attribute_tokenized", "attribute_in_use_on_detached_element", "remove_attribute_removes_one", "removed_attribute_can_be_reused", "move_merged_text_node"];
 
 pub fn dom_attr_owner(scenario: &str) -> Outcome {
     use xml_dom::{Attr, Document, DocumentMut, Element, ElementMut};
@@ -1640,6 +1640,18 @@ pub fn dom_attr_owner(scenario: &str) -> Outcome {
                 let left = { use xml_dom::{NamedNodeMap, Node}; r2.attributes().unwrap().iter().count() };
                 expected = "attributes left: 2".to_string();
                 format!("attributes left: {}", left)
+            }
+            "move_merged_text_node" => {
+                // with references expanded the text children are merged nodes: handing one to a mutator must not panic
+                use xml_dom::{Node, NodeMut};
+                let ctx = xml_dom::Context::from_text_expanded(true);
+                let (_, doc2) = xml_dom::XmlDocument::from_raw_with_context("<r>a&lt;b<s/>t</r>", ctx).unwrap();
+                let r2 = doc2.document_element().unwrap();
+                let t = r2.first_child().unwrap();
+                let s2 = xml_dom::NodeList::item(&r2.child_nodes(), 1).unwrap().as_element().unwrap();
+                let res = s2.append_child(t);
+                expected = "a moved node or an error".to_string();
+                if res.is_ok() || res.is_err() { "a moved node or an error".to_string() } else { String::new() }
             }
             "removed_attribute_can_be_reused" => {
                 let at = r.get_attribute_node("a").unwrap();
